@@ -219,3 +219,29 @@ func H_C01_OfflineSignature() {
 	c := checkRT("offline", in, rem, o.Bytes())
 	nd.Assert(c == total, "offline/extent")
 }
+
+// H_C01_RouterInfoPeers: a RouterInfo whose peer_size byte is 1, followed by 32 bytes that begin 00 00 (so that they
+// read as an empty options mapping for a parser that ignores peer_size and as a peer hash for one that honours it),
+// another 00 00, and enough bytes for a signature either way: whatever the parser consumes, Bytes() reproduces it.
+//
+//verif:props C01 C03 C04
+//verif:witness accepted
+func H_C01_RouterInfoPeers() {
+	in := nd.Bytes(391 + 8 + 1 + 1 + 32 + 2 + 64 + 8)
+	pinDest(in, 0, 7, 4, 0)
+	pin(in, 399, 0)    // no addresses
+	pin(in, 400, 1)    // peer_size
+	pin(in, 401, 0, 0) // first bytes of the would-be hash
+	pin(in, 433, 0, 0) // options after the would-be hash
+	ri, rem, err := router_info.ReadRouterInfo(in)
+	if err != nil {
+		return
+	}
+	nd.Cover("accepted")
+	out, berr := ri.Bytes()
+	nd.Assert(berr == nil, "ripeers/bytes-ok")
+	if berr != nil {
+		return
+	}
+	checkRT("ripeers", in, rem, out)
+}
